@@ -103,3 +103,20 @@ check("C16", "model_checking",
            "release only after the whole batch requested and was checked, verdict propagation, exactly-once checking with the "
            "right contents, closing of the final partial batch and loud rejection of every misuse call are checked on each one.",
       note="Bounds: <= 6 (7) records, batch size <= 4; totals <= 9 for misuse histories.")
+
+check("C17", "model_checking",
+      "RecordsStream (Batch and Single) for record sizes 1,1,2,3,4,8, LengthDelimitedStream and BufferedBytesStream: for every "
+      "test buffer (every record count x every truncated tail x an undecodable record at every position, <= 10 (14) bytes) the "
+      "explorer enumerates every chunking of the bytes and, deviation-bounded, a Pending answer, an empty chunk or a transport "
+      "error at every poll; the flattened output is compared with a reference parse of the whole buffer. "
+      "states = executions (distinct chunking/deviation sequences); transitions = choice points.",
+      [{"name": "parsers", "config": "A", "test": "verif::c17::run",
+        "require": {"any": {"streams": 100, "distinct:parsers": 10}}}],
+      assumptions=["process_slice_by_chunks / Chunk::unpack and ExactSizeStream are not part of this check yet"],
+      exhaustive=True, engine="E1 choice",
+      technique="stateless exhaustive choice-tree exploration of all chunkings (2^(n-1) compositions) and deviation-bounded "
+                "environment answers of the real stream parsers, reference parse as oracle",
+      text="Every way of splitting each test body into network chunks, plus Pending/empty-chunk/transport-error answers within the "
+           "deviation bound, is executed on the real parsers; records must be exactly those encoded (none lost, duplicated, "
+           "reordered), undecodable or trailing data must surface as an error, transport errors must not be swallowed, no panic.",
+      note="Bounds: bodies <= 10 (14) bytes (17 for 8-byte records), deviations <= 2 (n<=6), 1 (n<=10), 0 beyond.")
